@@ -31,7 +31,10 @@ pub enum RTy { I64, Big, Q, F2, F3, PolyH }
 pub enum Step { ReduceAll(bool), ReduceAt(u8, bool), Spec(u8, bool, u8), Convenience }
 
 #[derive(Clone, Debug, Serialize, Deserialize)]
-pub struct Case { pub rty: RTy, pub degs: Vec<Deg>, pub steps: Vec<Step>, pub vecs: Vec<(u8, Vec<(u8, i8)>)>, pub threads: u8, pub with_trans: bool, pub sched: Sched }
+pub struct Case { pub rty: RTy, pub degs: Vec<Deg>, pub steps: Vec<Step>, pub vecs: Vec<(u8, Vec<(u8, i8)>)>, pub threads: u8, pub with_trans: bool, pub sched: Sched,
+    /// instead of the planted complex: the two-term complex C_0 --d--> C_1 of one large sparse matrix from C11's generator
+    /// (random, or conflict-rich for the parallel pivot search); `rty` agrees with its ring
+    #[serde(default)] pub wide: Option<crate::props::c11::Case> }
 
 fn ty_of(r: RTy) -> Ty { match r { RTy::I64 => Ty::I64, RTy::Big => Ty::Big, RTy::Q => Ty::QI64, RTy::F2 => Ty::F2, RTy::F3 => Ty::FF3, RTy::PolyH => Ty::PQI64 } }
 
@@ -76,7 +79,16 @@ fn run_ty<R>(c: &Case, tier: Tier) -> Chk<Pass> where R: Sc + yui::Ring, for<'x>
     let k = ty_of(c.rty).rk();
     let k = if c.rty == RTy::PolyH { RK::PQ } else { k };
     let maxb = tier.pick(4usize, 7usize);
-    let p = plant(k, Some(20), &c.degs, maxb);
+    let p = match &c.wide {
+        None => plant(k, Some(20), &c.degs, maxb),
+        Some(w) => {
+            let (m, n, e) = crate::props::c11::build_entries(w, Tier::Quick); let _ = tier;
+            if m == 0 || n == 0 { return discard("empty-wide-matrix") }
+            let mut d = RM::zero(k, m, n);
+            for ((i, j), v) in &e { d.a[*i][*j] = v.to_rv(); }
+            crate::props::c07::Planted { k, ranks: vec![n, m], d: vec![d, RM::zero(k, 0, m)], free: vec![], tors: vec![], tors_count: vec![] }
+        }
+    };
     let l = p.ranks.len();
     let mut sps: Vec<SpMat<R>> = vec![];
     for d in &p.d { let Some(s) = rm_to_sp::<R>(d) else { return discard("unrepresentable-operand") }; sps.push(s); }
@@ -178,7 +190,7 @@ fn run_ty<R>(c: &Case, tier: Tier) -> Chk<Pass> where R: Sc + yui::Ring, for<'x>
     }
     let reduced_any = (0..l).any(|i| nred[i] < p.ranks[i]);
     Ok(Pass::new().nt(reduced_any && l >= 2).label(format!("ring:{:?}", c.rty)).label(format!("threads:{threads}")).label_if(reduced_any, "pivots-found")
-        .label_if(!vmods.is_empty(), "tracked-vectors").label_if(!c.with_trans, "without-trans").label_if(dred.iter().all(|d| d.is_zero()), "fully-reduced").label_if(retries > 0, "pivot-retry>=1").label(format!("sched:{}", match c.sched { Sched::Free => "free", Sched::Barrier(_) => "barrier", Sched::Delay(..) => "delay", Sched::Stagger => "stagger" })))
+        .label_if(!vmods.is_empty(), "tracked-vectors").label_if(!c.with_trans, "without-trans").label_if(dred.iter().all(|d| d.is_zero()), "fully-reduced").label_if(retries > 0, "pivot-retry>=1").label_if(c.wide.is_some(), "wide-two-term-complex").label(format!("sched:{}", match c.sched { Sched::Free => "free", Sched::Barrier(_) => "barrier", Sched::Delay(..) => "delay", Sched::Stagger => "stagger" })))
 }
 
 fn run_case(c: &Case, tier: Tier) -> Chk<Pass> {
@@ -202,22 +214,31 @@ impl Prop for C08 {
     type Case = Case;
     const ID: &'static str = "C08";
     fn rule() -> String {
-        "case = (ring in {i64, BigInt, Ratio<i64>, F2, F3, Z[H] = Poly<'H',i64>}, complex of length 1..6 built by construction (planted ranks, factors from units and non-units so reduction is partial, sparse unimodular changes of basis), a script of reduction steps (reduce_all(shallow/deep), reduce_at(i, deep), reduce_at_spec(i, Rows|Cols, One|AnyUnit|Weight), ChainReducer::reduce), tracked vectors added before the script, thread count in {1,2,4,8,16}, with/without transfer maps). \
+        "case = (ring in {i64, BigInt, Ratio<i64>, F2, F3, Z[H] = Poly<'H',i64>}, complex of length 1..6 built by construction (planted ranks, factors from units and non-units so reduction is partial, sparse unimodular changes of basis) or, in one case of five, the two-term complex of one large sparse matrix from C11's generator (random or conflict-rich for the parallel pivot search, up to 60 x 60), a script of reduction steps (reduce_all(shallow/deep), reduce_at(i, deep), reduce_at_spec(i, Rows|Cols, One|AnyUnit|Weight), ChainReducer::reduce), tracked vectors added before the script, thread count in {1,2,4,8,16}, with/without transfer maps). \
          after the script, with reference products on the extracted matrices: shapes consistent, d'd' = 0, F_i+1 d_i = d'_i F_i, d_i B_i = B_i+1 d'_i, F_i B_i = I, tracked vector k at degree i equals F_i v_k, and the homology fingerprint (free rank per degree and, for Z and Z[H] specialised at H = 2,-3,5, the positive valuations at 2,3,5 of the incoming differential) computed by the harness's own elimination is unchanged; the reduction runs under a hook-controlled schedule strategy (Free / Barrier / Delay / Stagger, as in C11). \
          non-trivial = at least one step removed a pivot and the complex has length >= 2".into()
     }
     fn assumptions() -> Vec<String> { vec!["thread schedules sampled by pool size; the intermediate matrices may differ between schedules, only the equations are asserted".into()] }
     fn strategy(tier: Tier) -> BoxedStrategy<Case> {
         let nd = tier.pick(5usize, 7usize);
-        prop::sample::select(vec![RTy::I64, RTy::Big, RTy::Q, RTy::F2, RTy::F3, RTy::PolyH]).prop_flat_map(move |rty| {
+        let step0 = prop_oneof![3 => any::<bool>().prop_map(Step::ReduceAll), 3 => (any::<u8>(), any::<bool>()).prop_map(|(i, d)| Step::ReduceAt(i, d)),
+            5 => (any::<u8>(), any::<bool>(), 0u8..4).prop_map(|(i, c, k)| Step::Spec(i, c, k)), 1 => Just(Step::Convenience)];
+        let vecs0 = prop::collection::vec((any::<u8>(), prop::collection::vec((any::<u8>(), -2i8..=2), 0..5)), 0..3);
+        let wide = (<crate::props::c11::C11 as Prop>::strategy(tier), prop::collection::vec(step0, 1..4), vecs0, prop_oneof![5 => Just(true), 1 => Just(false)])
+            .prop_map(|(w, steps, vecs, with_trans)| {
+                use crate::props::c11::RTy as W;
+                let rty = match w.rty { W::I64 => RTy::I64, W::Q => RTy::Q, W::F3 => RTy::F3, W::PolyH => RTy::PolyH };
+                Case { rty, degs: vec![], steps, vecs, threads: w.threads, with_trans, sched: w.sched, wide: Some(w) } });
+        let planted = prop::sample::select(vec![RTy::I64, RTy::Big, RTy::Q, RTy::F2, RTy::F3, RTy::PolyH]).prop_flat_map(move |rty| {
             let deg = (0u8..8, 0u8..8, prop::collection::vec(factor(rty), 0..8), Just(false), prop::collection::vec((0u8..2, any::<u8>(), any::<u8>(), -1i8..=1), 0..6))
                 .prop_map(|(b, c, factors, chain, ops)| Deg { b, c, factors, chain, ops });
             let step = prop_oneof![3 => any::<bool>().prop_map(Step::ReduceAll), 3 => (any::<u8>(), any::<bool>()).prop_map(|(i, d)| Step::ReduceAt(i, d)),
                 5 => (any::<u8>(), any::<bool>(), 0u8..4).prop_map(|(i, c, k)| Step::Spec(i, c, k)), 1 => Just(Step::Convenience)];
             let vecs = prop::collection::vec((any::<u8>(), prop::collection::vec((any::<u8>(), -2i8..=2), 0..5)), 0..4);
             (Just(rty), prop::collection::vec(deg, 1..=nd + 1), prop::collection::vec(step, 1..6), vecs, any::<u8>(), prop_oneof![5 => Just(true), 1 => Just(false)], sched_strategy())
-                .prop_map(|(rty, degs, steps, vecs, threads, with_trans, sched)| Case { rty, degs, steps, vecs, threads, with_trans, sched })
-        }).boxed()
+                .prop_map(|(rty, degs, steps, vecs, threads, with_trans, sched)| Case { rty, degs, steps, vecs, threads, with_trans, sched, wide: None })
+        });
+        prop_oneof![4 => planted, 1 => wide].boxed()
     }
     fn cases(tier: Tier) -> u32 { tier.pick(12_000, 300_000) }
     fn shards(_: Tier) -> usize { 8 }
